@@ -120,8 +120,12 @@ def parse_coeff_record(line, n, problems, tag=''):
     return vals
 
 
-def parse(text):
+def parse(text, inner_end=False):
     """-> dict(species=[...], problems=[...], counts={line class: n}, n_records=int).
+
+    inner_end=True: the text is allowed to hold whole thermdat blocks one after the other (a complete
+    file given as supplementary data), i.e. records may follow an END line; the *last* non-blank,
+    non-comment line must then still be END.  The number of END lines is returned as n_end.
 
     species entries: name, notes, elements [[symbol, count], ...] (zero counts kept as read),
     phase, T_low, T_high, T_mid, a_high (7), a_low (7).
@@ -132,14 +136,20 @@ def parse(text):
     expect = 1
     cur = None
     seen_end = False
+    last = None
+    n_end = 0
     for ln, line in enumerate(split_lines(text), 1):
         kind = classify(line)
         counts[kind] = counts.get(kind, 0) + 1
-        if kind in ('comment', 'blank', 'temps'):
+        if kind in ('comment', 'blank'):
+            continue
+        last = 'END' if (kind == 'keyword' and line.strip() == 'END') else kind
+        if kind == 'temps':
             continue
         if kind == 'keyword':
             if line.strip() == 'END':
                 seen_end = True
+                n_end += 1
                 if expect != 1:
                     problems.append('line %d: END inside a species entry' % ln)
             continue
@@ -148,7 +158,7 @@ def parse(text):
             continue
         rec = int(kind[-1])
         tag = 'line %d (record %d): ' % (ln, rec)
-        if seen_end:
+        if seen_end and not inner_end:
             problems.append(tag + 'record after END')
         if rec != expect:
             problems.append(tag + 'expected record %d' % expect)
@@ -176,8 +186,10 @@ def parse(text):
         problems.append('file ends inside a species entry (record %d expected)' % expect)
     if not seen_end:
         problems.append('no END line')
+    elif inner_end and last != 'END':
+        problems.append('the last line of the data is not END')
     n_records = sum(v for k, v in counts.items() if k.startswith('record'))
-    return dict(species=species, problems=problems, counts=counts, n_records=n_records)
+    return dict(species=species, problems=problems, counts=counts, n_records=n_records, n_end=n_end)
 
 
 # ----------------------------------------------------------------------------- formatter
